@@ -62,6 +62,11 @@ pub const LOSING: &[SPos] = &[
     // in check, a single legal reply, after which the opponent mates in one; the first generated king move is illegal
     SPos { name: "forced-into-mate-w", fen: "8/8/8/8/8/8/5k2/4q2K w - - 0 1", history: "" },
     SPos { name: "forced-into-mate-b", fen: "4Q2k/5K2/8/8/8/8/8/8 b - - 0 1", history: "" },
+    // not lost at all, but one ply away the opponent has no pseudo-legal move whatsoever (every
+    // piece and pawn is blocked by its own side or by a pawn in front of it): stalemate nodes
+    // with an EMPTY move list inside the tree
+    SPos { name: "fully-blocked-opponent-w", fen: "5brk/4p1pn/4PpP1/4NPp1/6P1/8/8/QR2K3 w - - 0 1", history: "" },
+    SPos { name: "fully-blocked-opponent-b", fen: "qr2k3/8/8/6p1/4npP1/4pPp1/4P1PN/5BRK b - - 0 1", history: "" },
 ];
 
 /// Positions whose search stays tiny at any depth (forced mates, a single legal move): searched
